@@ -460,13 +460,28 @@ pub fn add_venv(rng: &mut Rng, spec: &mut WsSpec, names: &[String]) {
             // module's fixtures stay visible to the whole workspace
             let shared = "plugsrc/myplug/shared.py".to_string();
             spec.files.push(PyFile { rel: shared.clone(), items: vec![Item::Fixture(Fx { func: "shared_only".into(), ..Default::default() }), Item::Fixture(Fx { func: rng.pick(names).clone(), ..Default::default() })] });
-            spec.plugin_files.push(shared.clone());
             plugin_items.insert(0, Item::Star { module: ".shared".into(), target: Some(shared.clone()) });
+            if rng.chance(450) {
+                // ... and that helper star-imports a second one: plugin status has to propagate along the chain
+                // whichever file the import scan happens to look at first
+                let deep = "plugsrc/myplug/deep.py".to_string();
+                spec.files.push(PyFile { rel: deep.clone(), items: vec![Item::Fixture(Fx { func: "deep_only".into(), ..Default::default() }), Item::Fixture(Fx { func: rng.pick(names).clone(), ..Default::default() })] });
+                if let Some(sf) = spec.files.iter_mut().find(|f| f.rel == shared) {
+                    sf.items.insert(0, Item::Star { module: ".deep".into(), target: Some(deep) });
+                }
+            }
             let confs: Vec<usize> = spec.files.iter().enumerate().filter(|(_, f)| f.rel.ends_with("/conftest.py") && !f.rel.starts_with('.') && !f.rel.starts_with("plugsrc")).map(|(i, _)| i).collect();
             if !confs.is_empty() && rng.chance(700) {
                 let i = *rng.pick(&confs);
                 spec.files[i].items.insert(0, Item::Star { module: "myplug.shared".into(), target: Some(shared) });
             }
+        }
+        if rng.chance(350) {
+            // the entry module names ONE fixture of another module in an explicit import: that fixture is a plugin
+            // fixture, its neighbour in the same module is not
+            let expl = "plugsrc/myplug/expl.py".to_string();
+            spec.files.push(PyFile { rel: expl.clone(), items: vec![Item::Fixture(Fx { func: "expl_fix".into(), ..Default::default() }), Item::Fixture(Fx { func: "expl_other".into(), ..Default::default() })] });
+            plugin_items.insert(0, Item::Import { module: ".expl".into(), names: vec!["expl_fix".into()], target: Some(expl) });
         }
         spec.files.push(PyFile { rel: rel.clone(), items: plugin_items });
         spec.files.push(PyFile { rel: "plugsrc/myplug/__init__.py".into(), items: vec![] });
